@@ -94,6 +94,17 @@ func c08Scens(tier string) []msScen {
 		out = append(out, msScen{Prop: "C08", Cfg: eb.cfg, Warm: 9, Writes: 5, LongSeg: 1, Reqs: [][]string{{"PLA", "PLA"}}, Bound: bound, Shards: 1})
 		out = append(out, msScen{Prop: "C08", Cfg: eb.cfg, Warm: 9, Writes: 5, LongSeg: 1, Reqs: [][]string{{"PLA"}, {"PL"}}, Bound: bound, Shards: 1})
 	}
+	// a segment of zero duration in the window (two key frames at the same instant, the second with new parameter sets):
+	// requests are pure readers - what a playlist request gets does not depend on which requests were served before it
+	for _, cfg := range []muxCfg{cfgFMP4, cfgFMP4Disk, cfgLLp, cfgTS} {
+		warm := 8
+		if cfg.Variant == "ll" {
+			warm = 8 // (frames of 250 ms: a key frame every 4)
+		}
+		for _, rs := range [][][]string{{{"PL", "IDX", "PL"}}, {{"IDX", "PL"}, {"PL"}}, {{"IDX"}, {"IDX", "PL"}}} {
+			out = append(out, msScen{Prop: "C08", Cfg: cfg, Warm: warm, Writes: 6, Zero: 1, Reqs: rs, Bound: bound, Shards: 1})
+		}
+	}
 	for _, b := range bases {
 		ll := b.cfg.Variant == "ll"
 		for _, warm := range b.warms {
